@@ -14,7 +14,7 @@ RULE = ("complete enumeration: for n in 8/16/32 (.byte/.word/implicit word list/
         "latin-1, cp866: 256 each; utf-8: first 0x800 code points + one per 256-block in quick, every BMP code point in thorough) under "
         "each of the three quote characters, every escape (all 256 \\xHH), <n> for n in -1..256, all strings of length <= 2 over "
         "{a, Cyrillic, quote, backslash, <12>}; .blkb/.blkw counts {0..9,177777,200000,-1}; .even/.odd at both parities; .align m for "
-        "m in 1..64 at every residue and two bases. Accepted statements are batched and compared byte for byte; statements that must be "
+        "m in 1..64 at every residue and two bases; 12 directive forms under 6 spellings of the directive name (upper, capitalised, and without the dot - accepted with a warning), also inside '.repeat'. Accepted statements are batched and compared byte for byte; statements that must be "
         "refused run alone and must fail with an error. Non-trivial = distinct (charset, statement text, address parity)")
 ASSUMPTIONS = ["Python's codecs are the independent definition of the selectable output charsets; for 'bk' ASCII/KOI8-R per pdpmc/ref/charset.py",
                "content of an operand-less .byte/.word/.dword is not demanded (their size is C02's subject)"]
@@ -62,6 +62,7 @@ def cases(tier):
     yield {"k": "angle"}
     yield {"k": "blk"}
     yield {"k": "parity"}
+    yield {"k": "directive-spelling"}
     for first in range(len(PLACE_STMTS)):
         yield {"k": "placement", "first": first}
     for m in range(1, 65):
@@ -332,6 +333,19 @@ def check(case, r, tier):
                 good.append((("blk-sym", d, nval), "%s cnt%d%s\ncnt%d%s = %o" % (d, nval, d[-1], nval, d[-1], nval), b"\x00" * (unit * nval)))
             for nval in (0o200000, -1, 0o200001, -0o177777):
                 bad.append((("blk", d, nval), "%s %s" % (d, num(nval))))
+    elif k == "directive-spelling":
+        # the directive's name in upper and mixed case and without its dot (accepted with a 'meta-typo' warning): the same bytes
+        forms = [("byte", "1, 2, 377", b"\x01\x02\xff"), ("word", "5, 177777", b"\x05\x00\xff\xff"), ("dword", "200001", b"\x01\x00\x01\x00"),
+                 ("ascii", "\"ab\"", b"ab"), ("asciz", "\"ab\"", b"ab\x00"), ("asciz", "\"\"", b"\x00"), ("asciz", "\"a\"<102>", b"aB\x00"),
+                 ("rad50", "\"abc\"", b"\x93\x06"), ("blkb", "3", b"\x00" * 3), ("blkw", "2", b"\x00" * 4), ("db", "7", b"\x07"), ("dw", "7", b"\x07\x00")]
+        for name, ops, want in forms:
+            for sp in ("." + name, "." + name.upper(), "." + name.capitalize(), name, name.upper(), name.capitalize()):
+                good.append((("spelling", sp, ops), "%s %s" % (sp, ops), want))
+                good.append((("spelling-in-repeat", sp, ops), ".repeat 2 { %s %s }" % (sp, ops), want * 2))
+        for sp in ("even", "EVEN", ".Even"):
+            good.append((("spelling", sp), ".byte 1\n%s\n.byte 2" % sp, b"\x01\x00\x02"))
+        for sp in ("odd", "ODD", ".Odd"):
+            good.append((("spelling", sp), "%s\n.byte 2" % sp, b"\x00\x02"))
     elif k == "parity":
         good.append((("even", "at-even"), ".even", b""))
         good.append((("odd", "at-even"), ".odd\n.byte 3", b"\x00\x03"))
